@@ -77,6 +77,7 @@ func hIterOps(N, L, nOps int, kinds []base.InternalKeyKind, bounded, limits, set
 		opNextLimit
 		opPrevLimit
 		opSetBounds
+		opNextPrefix
 	)
 	seekKey := func() byte {
 		k := sym.U8("seek")
@@ -90,6 +91,7 @@ func hIterOps(N, L, nOps int, kinds []base.InternalKeyKind, bounded, limits, set
 	}
 	idx := int64(0)
 	positioned, pausedFwd, pausedRev := false, false, false
+	atKey := false // the previous operation left the iterator on a key
 	for step := 0; step < nOps; step++ {
 		var st IterValidityState
 		ops := []int{opFirst, opLast, opSeekGE, opSeekLT}
@@ -100,6 +102,9 @@ func hIterOps(N, L, nOps int, kinds []base.InternalKeyKind, bounded, limits, set
 			ops = append(ops, opNext, opPrev)
 			if limits {
 				ops = append(ops, opNextLimit, opPrevLimit)
+			}
+			if hOpsNextPrefix && atKey {
+				ops = append(ops, opNextPrefix)
 			}
 		}
 		op := opSetBounds
@@ -145,6 +150,11 @@ func hIterOps(N, L, nOps int, kinds []base.InternalKeyKind, bounded, limits, set
 			if !pausedRev {
 				idx = min(idx+1, b)
 			}
+		case opNextPrefix:
+			// every key of the alphabet is its own prefix under the default comparer: from a key,
+			// NextPrefix lands on the next visible key
+			st = hState(it.NextPrefix())
+			idx = min(idx+1, b)
 		case opPrev:
 			st = hState(it.Prev())
 			if !pausedFwd {
@@ -181,6 +191,7 @@ func hIterOps(N, L, nOps int, kinds []base.InternalKeyKind, bounded, limits, set
 			continue
 		}
 		positioned = true
+		atKey = st == IterValid
 		if st == IterAtLimit {
 			sym.Assert(mayPause, "pauses-only-at-or-beyond-the-limit")
 		}
@@ -245,10 +256,14 @@ func VerifHarness_C02_BoundsDB() {
 	hWithLeanDB(func() { hIterOps(2, 2, 1, hSetRDel, true, false, false) })
 }
 
-func VerifHarness_C02_SetBoundsDB_Thorough() {
-	hWithLeanDB(func() { hIterOps(2, 2, 3, hSetRDel, false, false, true) })
+// NextPrefix after every kind of position an operation can leave the iterator in, including
+// the one after a MERGE was resolved (the internal iterator already stands on the next key)
+func VerifHarness_C02_NextPrefix() {
+	hOpsNextPrefix = true
+	hIterOps(2, 2, 2, []base.InternalKeyKind{hKSet, hKMerge, hKDel}, false, false, false)
 }
 
-func VerifHarness_C02_LimitsDB_Thorough() {
-	hWithLeanDB(func() { hIterOps(2, 2, 2, hSetDelRDel, false, true, false) })
+func VerifHarness_C02_NextPrefix3_Thorough() {
+	hOpsNextPrefix = true
+	hIterOps(2, 2, 3, []base.InternalKeyKind{hKSet, hKMerge, hKDel}, false, false, false)
 }
